@@ -221,6 +221,7 @@ def cases(c):
 def _narrow(d, i):
     if i % 7 == 2 and not d['cplx']:
         d['variant'] = gen.NARROW[(i // 7) % len(gen.NARROW)]          # wav / ADC samples in a narrow integer type
+    gen.layout_variant(d, i)
 
 
 def make_x(c, d):
